@@ -20,6 +20,7 @@ Section RunFcn.
     | VBool b => [1; if b then 1 else 0]
     | VStr s => 2 :: tok_str s
     | VNone => [3]
+    | VVec l => 4 :: Z.of_nat (List.length l) :: List.concat (map ntok l)
     end.
 
   Definition tok_qres (r : qres N) : list Z :=
@@ -31,6 +32,7 @@ Section RunFcn.
     | VBool x, VBool y => Bool.eqb x y
     | VStr x, VStr y => String.eqb x y
     | VNone, VNone => true
+    | VVec x, VVec y => forall2b neqb x y
     | _, _ => false
     end.
 
